@@ -231,7 +231,9 @@ class ReqGen:
             self.kinds.add("NamespaceReq")
             nid = r.choice(["t1", "t2", "ns3", "ns4"])
             k = r.random()
-            p = {"namespace_id": nid, "namespace_name": r.choice([None, "name-%d" % self.serial]), "type": r.choice([None, "2"])}
+            # an empty display name / type is a legal request (the name is cleared): Some("") must stay distinguishable from None on
+            # every path the request takes (in-memory on the leader, through the log's JSON on followers and at replay)
+            p = {"namespace_id": nid, "namespace_name": r.choice([None, "name-%d" % self.serial, "name-%d" % self.serial, ""]), "type": r.choice([None, "2", None, ""])}
             # AddOnly / InitFromOldValue are never issued by any code path of the system (migration leftovers): not generated
             if k < 0.4:
                 return {"NamespaceReq": {"Update": p}}
